@@ -237,9 +237,32 @@ class Models(object):
 
         def opt_take(ex, fr, c, a, st, pc):
             o = rd(st, a[0])
-            self.wr(st, a[0], EnumV(b64(0), dict(o.payloads, **{0: ()})))
+            np_ = dict(o.payloads)
+            np_[0] = ()
+            self.wr(st, a[0], EnumV(b64(0), np_))
             return o, S.TRUE
         R('Option::take', opt_take)
+
+        def opt_or_else(kind):
+            def f(ex, fr, c, a, st, pc):
+                from .exec import merge_states
+                o, cl = a
+                is_some = tag_is(o, 1)
+                if is_some is S.TRUE:
+                    return (o if kind == 'or_else' else payload(o, 1)), st, S.TRUE
+                base = st
+                rv, st2, live = ex.call_closure(cl, [], st.copy() if is_some is not S.FALSE else st,
+                                                S.And(pc, S.Not(is_some)))
+                if st2 is None:
+                    return (o if kind == 'or_else' else payload(o, 1)), base, is_some
+                if is_some is S.FALSE:
+                    return rv, st2, live
+                st3 = merge_states([(is_some, base), (S.Not(is_some), st2)])
+                mine = o if kind == 'or_else' else payload(o, 1)
+                return merge(is_some, mine, rv), st3, S.Or(is_some, live)
+            return f
+        R('Option::or_else', opt_or_else('or_else'))
+        R('Option::unwrap_or_else', opt_or_else('unwrap_or_else'))
 
         def opt_ok_or(ex, fr, c, a, st, pc):
             o = a[0]
